@@ -35,7 +35,7 @@ theorem kindRank_u (u : UK) (hu : u = .int ∨ u = .rune) : (Ty.u u).kindRank = 
 def umax (ka kb : UK) : UK := if Spec.ukRank ka ≤ Spec.ukRank kb then kb else ka
 
 /-- both operands untyped integer constants -/
-theorem binNodeY_uu (env : Env) (henv : env.noFrame = false) (a : Act) (ha : isArith a = true) (c0 c1 : NS)
+theorem binNodeY_uu (env : Env) (a : Act) (ha : isArith a = true) (c0 c1 : NS)
     (ka kb : UK) (p q : Int) (hka : ka = .int ∨ ka = .rune) (hkb : kb = .int ∨ kb = .rune)
     (h0ty : c0.ty = .u ka) (h0rv : c0.rv = .c (.int p)) (h1ty : c1.ty = .u kb) (h1rv : c1.rv = .c (.int q))
     (hq : a = .quo → ¬ (ka = .rune ∧ kb = .int)) (hz : ¬ (needsNZ a = true ∧ q = 0)) :
@@ -44,7 +44,7 @@ theorem binNodeY_uu (env : Env) (henv : env.noFrame = false) (a : Act) (ha : isA
   have hz1 := zeroConstY_untyped c1 kb q h1ty h1rv
   have hfold : ∀ nty : Ty, nty.untyped = true → nty.isInt = true →
       foldBinY F0 a nty (.c (.int p)) (.c (.int q)) = .ok (.c (.int (iop a p q))) :=
-    fun nty hu hi => foldBinY_const a ha nty hu hi p q hz
+    fun nty _ _ => foldBinY_const a ha nty p q hz
   obtain ⟨rv0, ty0, s0, i0, f0⟩ := c0
   obtain ⟨rv1, ty1, s1, i1, f1⟩ := c1
   simp only at h0ty h0rv h1ty h1rv
@@ -57,14 +57,14 @@ theorem binNodeY_uu (env : Env) (henv : env.noFrame = false) (a : Act) (ha : isA
       first
       | exact absurd ⟨rfl, rfl⟩ hne
       | (simp [binNodeY, checkBinaryY, hz1, hq0, binTypeY, Ty.untyped, Ty.isInt, Ty.isFloat, Ty.rtype, BT.isInt, BT.isFloat,
-             fixUntypedY, henv, umax, Spec.ukRank, NS.loose]
+             fixUntypedY, umax, Spec.ukRank, NS.loose]
          rw [hfold _ rfl rfl]; rfl)
   · have hzz : a = .rem → q ≠ 0 := fun h0 h => hz ⟨by subst h0; rfl, h⟩
     rcases hka with rfl | rfl <;> rcases hkb with rfl | rfl <;>
       (cases a <;> simp [isArith] at ha <;> first
         | exact absurd rfl hquo
         | (simp [binNodeY, checkBinaryY, hz1, hzz, convertUntypedY, binaryPredY, binTypeY, Ty.untyped, Ty.isInt, Ty.isFloat,
-             Ty.isNumber, Ty.kindRank, Ty.rtype, BT.isInt, BT.isFloat, fixUntypedY, henv, umax, Spec.ukRank, NS.loose]
+             Ty.isNumber, Ty.kindRank, Ty.rtype, BT.isInt, BT.isFloat, fixUntypedY, umax, Spec.ukRank, NS.loose]
            rw [hfold _ rfl rfl]; rfl))
 
 theorem convertUntypedY_typed (n : NS) (b : BT) (target : Ty) (hty : n.ty = .t b) :
@@ -72,7 +72,7 @@ theorem convertUntypedY_typed (n : NS) (b : BT) (target : Ty) (hty : n.ty = .t b
   simp [convertUntypedY, hty, Ty.untyped]
 
 /-- left operand of integer type `k`, right operand an untyped integer constant -/
-theorem binNodeY_tu (env : Env) (henv : env.noFrame = false) (a : Act) (ha : isArith a = true) (c0 c1 : NS)
+theorem binNodeY_tu (env : Env) (a : Act) (ha : isArith a = true) (c0 c1 : NS)
     (k : IKind) (kb : UK) (p q : Int) (hkb : kb = .int ∨ kb = .rune)
     (h0ty : c0.ty = .t (.i k)) (h0rv : c0.rv = .r (.i k) (.int p)) (h1ty : c1.ty = .u kb) (h1rv : c1.rv = .c (.int q))
     (hp : Spec.reprGo k p = true) (hq : Spec.reprGo k q = true)
@@ -92,15 +92,15 @@ theorem binNodeY_tu (env : Env) (henv : env.noFrame = false) (a : Act) (ha : isA
   by_cases hquo : a = .quo
   · subst hquo
     have hq0 : q ≠ 0 := fun h => hz ⟨rfl, h⟩
-    simp [binNodeY, checkBinaryY, hz1, hq0, binTypeY, Ty.untyped, hf2, fixUntypedY, henv]
+    simp [binNodeY, checkBinaryY, hz1, hq0, binTypeY, Ty.untyped, hf2, fixUntypedY]
   · have hzz : a = .rem → q ≠ 0 := fun h0 h => hz ⟨by subst h0; rfl, h⟩
     cases a <;> simp [isArith] at ha <;> first
       | exact absurd rfl hquo
       | simp [binNodeY, checkBinaryY, hz1, hzz, hc0, hcv, binaryPredY, binTypeY, Ty.untyped, Ty.isInt, Ty.isNumber,
-          Ty.rtype, BT.isInt, hf1, fixUntypedY, henv]
+          Ty.rtype, BT.isInt, hf1, fixUntypedY]
 
 /-- left operand an untyped integer constant, right operand of integer type `k` -/
-theorem binNodeY_ut (env : Env) (henv : env.noFrame = false) (a : Act) (ha : isArith a = true) (c0 c1 : NS)
+theorem binNodeY_ut (env : Env) (a : Act) (ha : isArith a = true) (c0 c1 : NS)
     (k : IKind) (ka : UK) (p q : Int)
     (h0ty : c0.ty = .u ka) (h0rv : c0.rv = .c (.int p)) (h1ty : c1.ty = .t (.i k)) (h1rv : c1.rv = .r (.i k) (.int q))
     (hp : Spec.reprGo k p = true) (hq : Spec.reprGo k q = true)
@@ -119,14 +119,14 @@ theorem binNodeY_ut (env : Env) (henv : env.noFrame = false) (a : Act) (ha : isA
   subst h0ty h0rv h1ty h1rv
   by_cases hquo : a = .quo
   · subst hquo
-    simp [binNodeY, checkBinaryY, hz1, binTypeY, Ty.untyped, hf2, fixUntypedY, henv]
+    simp [binNodeY, checkBinaryY, hz1, binTypeY, Ty.untyped, hf2, fixUntypedY]
   · cases a <;> simp [isArith] at ha <;> first
       | exact absurd rfl hquo
       | simp [binNodeY, checkBinaryY, hz1, hc1, hcv, binaryPredY, binTypeY, Ty.untyped, Ty.isInt, Ty.isNumber,
-          Ty.rtype, BT.isInt, hf1, fixUntypedY, henv]
+          Ty.rtype, BT.isInt, hf1, fixUntypedY]
 
 /-- both operands of the same integer type `k` -/
-theorem binNodeY_tt (env : Env) (henv : env.noFrame = false) (a : Act) (ha : isArith a = true) (c0 c1 : NS)
+theorem binNodeY_tt (env : Env) (a : Act) (ha : isArith a = true) (c0 c1 : NS)
     (k : IKind) (p q : Int)
     (h0ty : c0.ty = .t (.i k)) (h0rv : c0.rv = .r (.i k) (.int p)) (h1ty : c1.ty = .t (.i k)) (h1rv : c1.rv = .r (.i k) (.int q))
     (hp : Spec.reprGo k p = true) (hq : Spec.reprGo k q = true)
@@ -143,11 +143,11 @@ theorem binNodeY_tt (env : Env) (henv : env.noFrame = false) (a : Act) (ha : isA
   subst h0ty h0rv h1ty h1rv
   by_cases hquo : a = .quo
   · subst hquo
-    simp [binNodeY, checkBinaryY, hz1, binTypeY, Ty.untyped, hf1, fixUntypedY, henv]
+    simp [binNodeY, checkBinaryY, hz1, binTypeY, Ty.untyped, hf1, fixUntypedY]
   · cases a <;> simp [isArith] at ha <;> first
       | exact absurd rfl hquo
       | simp [binNodeY, checkBinaryY, hz1, hc0, hc1, binaryPredY, binTypeY, Ty.untyped, Ty.isInt, Ty.isNumber,
-          Ty.rtype, BT.isInt, hf1, fixUntypedY, henv]
+          Ty.rtype, BT.isInt, hf1, fixUntypedY]
 
 /-! ### the Go side of the same four cases -/
 
@@ -177,7 +177,7 @@ theorem matchTypes_tt (k k' : IKind) (p q : Int) :
 
 /-- **arithmetic node**: if the specification accepts `x op y` on integer constants, the interpreter's post-order
     case computes the same value and type (except that a rune/int quotient is typed int, which is excluded) -/
-theorem binNode_correct (env : Env) (henv : env.noFrame = false) (a : Act) (ha : isArith a = true) (c0 c1 : NS)
+theorem binNode_correct (env : Env) (a : Act) (ha : isArith a = true) (c0 c1 : NS)
     (g0 g1 gv : Spec.GV) (i0 : Inv c0 g0) (i1 : Inv c1 g1)
     (hq : a = .quo → ¬ (g0.ty = .u .rune ∧ g1.ty = .u .int))
     (hgo : ((Spec.matchTypes g0 g1).bind fun x => Spec.arithGo a x.1 x.2.1 x.2.2) = .ok gv) :
@@ -197,7 +197,7 @@ theorem binNode_correct (env : Env) (henv : env.noFrame = false) (a : Act) (ha :
         rcases hka with rfl | rfl <;> rcases hkb with rfl | rfl <;> simp [umax, Spec.ukRank]
       have hgv := finish_untyped_int _ _ humax gv hgo
       subst hgv
-      refine ⟨_, binNodeY_uu env henv a ha c0 c1 ka kb p q hka hkb h0ty h0rv h1ty h1rv ?_ hz, ?_⟩
+      refine ⟨_, binNodeY_uu env a ha c0 c1 ka kb p q hka hkb h0ty h0rv h1ty h1rv ?_ hz, ?_⟩
       · intro haq ⟨h1, h2⟩; exact hq haq ⟨by rw [h1], by rw [h2]⟩
       · exact Inv.of_untyped _ _ _ humax rfl rfl
   · -- untyped, typed
@@ -211,7 +211,7 @@ theorem binNode_correct (env : Env) (henv : env.noFrame = false) (a : Act) (ha :
       · rw [if_neg hz] at hgo
         obtain ⟨hgv, hr⟩ := finish_typed_int _ _ gv hgo
         subst hgv
-        exact ⟨_, binNodeY_ut env henv a ha c0 c1 k' ka p q h0ty h0rv h1ty h1rv hp hq' hz hr,
+        exact ⟨_, binNodeY_ut env a ha c0 c1 k' ka p q h0ty h0rv h1ty h1rv hp hq' hz hr,
           Inv.of_typed _ _ _ rfl rfl hr⟩
     · rw [if_neg hp] at hgo; cases hgo
   · -- typed, untyped
@@ -225,7 +225,7 @@ theorem binNode_correct (env : Env) (henv : env.noFrame = false) (a : Act) (ha :
       · rw [if_neg hz] at hgo
         obtain ⟨hgv, hr⟩ := finish_typed_int _ _ gv hgo
         subst hgv
-        exact ⟨_, binNodeY_tu env henv a ha c0 c1 k kb p q hkb h0ty h0rv h1ty h1rv hp hq2 hz hr,
+        exact ⟨_, binNodeY_tu env a ha c0 c1 k kb p q hkb h0ty h0rv h1ty h1rv hp hq2 hz hr,
           Inv.of_typed _ _ _ rfl rfl hr⟩
     · rw [if_neg hq2] at hgo; cases hgo
   · -- typed, typed
@@ -240,7 +240,7 @@ theorem binNode_correct (env : Env) (henv : env.noFrame = false) (a : Act) (ha :
       · rw [if_neg hz] at hgo
         obtain ⟨hgv, hr⟩ := finish_typed_int _ _ gv hgo
         subst hgv
-        exact ⟨_, binNodeY_tt env henv a ha c0 c1 k p q h0ty h0rv h1ty h1rv hp hq' hz hr,
+        exact ⟨_, binNodeY_tt env a ha c0 c1 k p q h0ty h0rv h1ty h1rv hp hq' hz hr,
           Inv.of_typed _ _ _ rfl rfl hr⟩
     · rw [if_neg hk] at hgo; cases hgo
 
